@@ -779,6 +779,9 @@ def xcanon_code(co, py2file, version=None):
     for f in ("co_kwonlyargcount", "co_posonlyargcount", "co_qualname", "co_exceptiontable"):
         if hasattr(co, f):
             d[f] = xcanon(getattr(co, f), py2file)
+    if hasattr(co, "co_localspluskinds"):
+        # what the 3.11+ file really stores (no CPython attribute shows the kinds): xdis-to-xdis comparisons only
+        d["x_localsplus"] = [xcanon(getattr(co, "co_localsplusnames", None), py2file), xcanon(co.co_localspluskinds, py2file)]
     return d
 
 
@@ -953,7 +956,23 @@ def x_dump_file(data=None, path=None, want_dis=True, max_code=None, route="load_
     r["tree"] = xcanon(co, py2file)
     if want_dis:
         opc = x.disasm.get_opcode(version, is_pypy) if hasattr(x.disasm, "get_opcode") else None
-        r["dis"] = [x_instr_dump(c, opc, max_code, dup_lines) for c in x_walk_codes(co)]
+        codes = x_walk_codes(co)
+        r["dis"] = [x_instr_dump(c, opc, max_code, dup_lines) for c in codes]
+        # one Bytecode object (built for the module) asked for the instructions of every OTHER code object:
+        # how xdis.std.get_instructions and decompilers use the API
+        if len(codes) > 1 and tuple(version) >= (2, 1):
+            try:
+                top = x.bytecode.Bytecode(codes[0], opc, dup_lines=dup_lines)
+            except Exception:
+                top = None
+            cmp_op = list(getattr(opc, "cmp_op", ()))
+            for c, d in zip(codes[1:], r["dis"][1:]):
+                if top is None or "instrs" not in d or len(d["instrs"]) > 400:
+                    continue
+                try:
+                    d["instrs_gi"] = {"instrs": [instr_to_dict(i, opc, py2file, cmp_op) for i in top.get_instructions(c)]}
+                except Exception as e:
+                    d["instrs_gi"] = {"err": "%s: %s" % (type(e).__name__, e)}
     return r
 
 
